@@ -1004,6 +1004,15 @@ impl Xot {
     /// ```
     pub fn parse_bytes(&mut self, bytes: &[u8]) -> Result<Node, ParseError> {
         let xml = decode(bytes, None);
+        // decoding has taken the byte order mark away; a second U+FEFF is a
+        // character in front of the document element (the tokenizer would
+        // skip it as if it were the mark)
+        if xml.starts_with('\u{feff}') {
+            return Err(ParseError::TextAtTopLevel(Span::new(
+                0,
+                '\u{feff}'.len_utf8(),
+            )));
+        }
         self.parse(&xml)
     }
 }
